@@ -343,7 +343,8 @@ func (ii *invertedIndex) findSeriesIDsByKeyFromMem(key uint32, seriesIDs *roarin
 func (ii *invertedIndex) prepareFlush() {
 	ii.lock.Lock()
 	defer ii.lock.Unlock()
-	if ii.immutable == nil {
+	// an empty frozen store is never reset by flush (nothing to flush): replace it
+	if ii.immutable == nil || ii.immutable.IsEmpty() {
 		ii.immutable = ii.mutable
 		ii.mutable = imap.NewIntMap[*roaring.Bitmap]()
 	}
@@ -556,7 +557,8 @@ func (fi *forwardIndex) withLock() (release func()) {
 func (fi *forwardIndex) prepareFlush() {
 	fi.lock.Lock()
 	defer fi.lock.Unlock()
-	if fi.immutable == nil {
+	// an empty frozen store is never reset by flush (nothing to flush): replace it
+	if fi.immutable == nil || fi.immutable.IsEmpty() {
 		fi.immutable = fi.mutable
 		fi.mutable = imap.NewIntMap[*imap.IntMap[uint32]]()
 	}
